@@ -220,6 +220,32 @@ CORPUS = [
 ]
 
 
+# Witnesses of findings the as-found switches do not model (the generator avoids the class by
+# construction); replayed on every run, matched by exact input in known-findings.d/C03.json.
+WITNESSES = [
+    ("N1", (("func", "c03n1g", ((("x", None),), None), (("debug", ("var", "x")), ("ret", ("var", "x")))),
+            ("func", "c03n1f", ((("c03n1a", None), ("c03n1b", None)), None),
+             (("ret", ("bin", "add", ("var", "c03n1a"), ("var", "c03n1b"))),)),
+            ("debug", ("call", "c03n1f", (), (("c03n1b", ("call", "c03n1g", (("num", F(1)),), (), None)),
+                                               ("c03n1a", ("call", "c03n1g", (("num", F(2)),), (), None))), None)))),
+]
+
+
+def witness_stream(ck, pool):
+    for wid, prog in WITNESSES:
+        impl, _ = run_impl(pool, [(prog, None)])
+        spec = run_model([prog], "")[0]
+        text = G.to_scss(prog)
+        ck.count("witness " + wid, True)
+        if impl[0] != spec:
+            payload = {"source": text, "program": repr(prog), "tokens": G.to_tokens(prog), "witness": wid,
+                       "impl_observation": pretty(impl[0]), "expected_by_property": pretty(spec)}
+            if ck.impl_violation(text, payload, tags=[]):
+                log(f"[C03] witness {wid} fails and is not a known finding")
+        else:
+            ck.notes.append(f"witness {wid}: grass now agrees with the specification (known-finding entry is stale)")
+
+
 def eval_stream(ck, pool, tier, syntaxes=("scss",)):
     rng = ck.rng
     n = 2600 if tier == "quick" else 90000
@@ -235,6 +261,17 @@ def eval_stream(ck, pool, tier, syntaxes=("scss",)):
         impl, _ = run_impl(pool, [(p, None) for p in progs])
         asf = run_model(progs, DEV_ALL)
         spec = run_model(progs, "")
+        # every 7th program also goes through the indented-syntax printer: same observation expected
+        sass_idx = [i for i in range(len(progs)) if i % 7 == 0]
+        sass_obs, _ = run_impl(pool, [(progs[i], None) for i in sass_idx], "sass")
+        for i, o in zip(sass_idx, sass_obs):
+            if asf[i] in MODEL_SKIP or spec[i] in MODEL_SKIP or asf[i].startswith("ok err static-error"):
+                continue        # what the two parsers reject, and when, belongs to C18
+            ck.hist("syntax:sass")
+            if o != impl[i]:
+                ck.cov["model_disagreements"] += 1
+                failing.append({"prog": progs[i], "impl": o, "model": asf[i], "spec": spec[i], "kind": "eval-sass",
+                                "scss": G.to_sass(progs[i])})
         for (p, feats), io, mo, so in zip(chunk, impl, asf, spec):
             if mo in MODEL_SKIP or so in MODEL_SKIP:
                 ck.cov["unsupported_dropped"] += 1
@@ -443,6 +480,12 @@ def report(ck, pool, failing):
             if ck.impl_violation(text, payload, tags=tags if impl == asf else []):
                 reported += 1
                 log("[C03] VIOLATION candidate:\n" + text + "\nimpl: " + json.dumps(pretty(impl)) + "\nspec: " + json.dumps(pretty(spec)))
+        elif f["kind"] == "eval-sass":
+            budget -= 1
+            payload = {"source_sass": f["scss"], "source_scss": G.to_scss(f["prog"]), "kind": "indented syntax differs from SCSS",
+                       "impl_observation": pretty(f["impl"]), "expected_by_property": pretty(f["spec"])}
+            if ck.impl_violation(f["scss"], payload, tags=[]):
+                reported += 1
         else:
             budget -= 1
             small = shrink_scope(pool, f) if f["kind"] in ("scope", "scope-tie") else f["tree"]
@@ -478,6 +521,7 @@ def run(tier, seed):
     t0 = time.time()
     failing = scope_stream(ck, pool, tier)
     log(f"[C03] scope stream: {time.time() - t0:.1f}s, failing={len(failing)}")
+    witness_stream(ck, pool)
     t0 = time.time()
     failing += eval_stream(ck, pool, tier)
     log(f"[C03] eval stream: {time.time() - t0:.1f}s, failing={len(failing)}")
